@@ -1,5 +1,5 @@
 (** A concrete instance of [run_setup] and two reachable states of its run (non-vacuity of the whole-run theorems). *)
-From TB Require Import Base Decimal BencodeModel TorrentModel LayoutModel PathModel FsModel SolverModel FinderModel RunModel SolverProofs FsProofs SystemModel SystemProofs GlueProofs EstablishProofs.
+From TB Require Import Base Decimal BencodeModel TorrentModel LayoutModel PathModel FsModel SolverModel FinderModel RunModel SolverProofs FsProofs SystemModel SystemProofs GlueProofs EstablishProofs CompleteProofs.
 Local Open Scope N_scope.
 Definition Hid (b : list N) : list N := b.
 Definition ex_t : torrent := {| t_name := [97]; t_length := Some 2; t_files := None; t_piece_length := 2; t_pieces := [[7;8]]; t_info_hash := [1] |}.
@@ -54,5 +54,33 @@ Proof.
     vm_compute. eapply EstablishProofs.fr_step. { eapply (fs_mut _ _ 0%nat); vm_compute; reflexivity. }
     vm_compute. eapply EstablishProofs.fr_step. { eapply (fs_unlock _ _ 0%nat); vm_compute; reflexivity. }
     vm_compute. apply EstablishProofs.fr_refl.
+  - reflexivity.
+Qed.
+
+(** ... in which the piece stays available and unobstructed in every state (non-vacuity of C02's whole-run theorem). *)
+Definition ex_pc : wpiece := match ex_ws with pc :: _ => pc | [] => {| w_segs := []; w_hash := [] |} end.
+Definition ex_wit (s : pseg) : path := [[115];[120]].
+Lemma ex_avail f : (forall q, In q (prefixes (parent ex_target)) -> is_file f q = false) -> is_dir f ex_target = false ->
+  fs_read f [[115];[120]] 0 2 = Some [7;8] -> avail ex_content ex_pc ex_wit f.
+Proof.
+  intros H1 H2 H3. unfold avail. vm_compute w_segs. constructor; [|constructor]. intros _. cbn [ps_entry e_target ps_len ps_off].
+  split; [exact H1|]. split; [exact H2|]. split; [discriminate|]. intros _. eexists. split; [reflexivity|]. split.
+  - intros c [<-|[]]. rewrite H3. discriminate.
+  - split; [now left|]. exact H3.
+Qed.
+Example ex_freachA : exists s, freachA ex_content ex_pc ex_wit {| s_fs := ex_f0; s_pool := ex_pool |} s /\ nth_error (s_pool s) 0 = Some (Ret Success).
+Proof.
+  assert (A : forall f, (forall q, In q (prefixes (parent ex_target)) -> is_file f q = false) -> is_dir f ex_target = false ->
+              fs_read f [[115];[120]] 0 2 = Some [7;8] -> avail ex_content ex_pc ex_wit f) by exact ex_avail.
+  eexists. split.
+  - unfold ex_pool, ex_ws, ex_es. vm_compute populate. vm_compute work_of. cbn [map].
+    eapply fa_step. { apply A; [intros q [<-|[<-|[<-|[]]]]; reflexivity|reflexivity|reflexivity]. } { eapply (fs_read_ _ _ 0%nat); vm_compute; reflexivity. }
+    vm_compute. eapply fa_step. { apply A; [intros q [<-|[<-|[<-|[]]]]; reflexivity|reflexivity|reflexivity]. } { eapply (fs_lock _ _ 0%nat); vm_compute; reflexivity. }
+    vm_compute. eapply fa_step. { apply A; [intros q [<-|[<-|[<-|[]]]]; reflexivity|reflexivity|reflexivity]. } { eapply (fs_mut _ _ 0%nat); vm_compute; reflexivity. }
+    vm_compute. eapply fa_step. { apply A; [intros q [<-|[<-|[<-|[]]]]; reflexivity|reflexivity|reflexivity]. } { eapply (fs_mut _ _ 0%nat); vm_compute; reflexivity. }
+    vm_compute. eapply fa_step. { apply A; [intros q [<-|[<-|[<-|[]]]]; reflexivity|reflexivity|reflexivity]. } { eapply (fs_mut _ _ 0%nat); vm_compute; reflexivity. }
+    vm_compute. eapply fa_step. { apply A; [intros q [<-|[<-|[<-|[]]]]; reflexivity|reflexivity|reflexivity]. } { eapply (fs_mut _ _ 0%nat); vm_compute; reflexivity. }
+    vm_compute. eapply fa_step. { apply A; [intros q [<-|[<-|[<-|[]]]]; reflexivity|reflexivity|reflexivity]. } { eapply (fs_unlock _ _ 0%nat); vm_compute; reflexivity. }
+    vm_compute. apply fa_refl. apply A; [intros q [<-|[<-|[<-|[]]]]; reflexivity|reflexivity|reflexivity].
   - reflexivity.
 Qed.
